@@ -108,6 +108,7 @@ type Exec struct {
 	loopFuncs  map[string]bool
 	inStep     int
 	identSeen  []*Term
+	observed   []Observation
 	nondetSeq  int
 
 	// happens-before race detection (vector clocks) over recorded goroutines
@@ -192,6 +193,7 @@ func (e *Exec) resetPath(prefix []decision) {
 	e.output = map[string][]Value{}
 	e.inStep = 0
 	e.nondetSeq = 0
+	e.observed = nil
 	e.identSeen = nil
 	e.cmd = cmdEnv{flags: map[string]Value{}}
 	e.curThread = 0
@@ -201,7 +203,14 @@ func (e *Exec) resetPath(prefix []decision) {
 	e.raceSeen = map[string]bool{}
 }
 
+type Observation struct {
+	Name string
+	Term *Term
+}
+
 type PathResult struct {
+	Observed []Observation
+	PCs      []*Term
 	Decisions   []decision
 	Obligations []Obligation
 	Status      string
@@ -246,7 +255,7 @@ func (e *Exec) runInit(p *ssa.Package) {
 }
 
 func (e *Exec) result(status, reason string) PathResult {
-	return PathResult{Decisions: e.taken, Obligations: e.obligations, Status: status, Reason: reason,
+	return PathResult{Observed: e.observed, PCs: append([]*Term(nil), e.pcs...), Decisions: e.taken, Obligations: e.obligations, Status: status, Reason: reason,
 		Forks: e.forks, Instrs: e.instrCount, Events: e.events, UnknownBr: e.unknownBr}
 }
 
